@@ -19,16 +19,26 @@ The tie theorem (`lean/CxVerif/Props/C01/KernelTie*.lean`) proves it equal to th
 kernel evaluation (`kernel_rfl`).  A changed rotation constant, operand, index, loop bound or table entry changes the
 generated definition and the theorem no longer checks.
 
-Everything that is not understood raises TranslateError (reported as a broken extraction) — nothing is skipped,
-except: attributes other than `cfg` (`#[inline]`, `#[allow]`, …), `use` items, and nested `fn` items (which are
-translated when they are called).  `#[cfg(…)]` is evaluated with the spec's `cfg` table (unknown keys are errors).
+Everything that is not understood raises TranslateError (reported as a broken extraction).  What IS skipped: attributes other than
+`cfg` / `cfg_attr` (`#[inline]`, `#[allow]`, …), non-renaming `use` items inside a body, and nested `fn` items (translated when they are
+called; one that is named like a primitive of the spec or like a tuple struct is refused).  Renaming imports (`use … as …`) are
+refused: inside a body always, at file level when the renamed name occurs in the file.  `#[cfg(…)]` on a STATEMENT is evaluated with
+the spec's `cfg` table (unknown keys are errors), `#[cfg_attr]` is refused; `#[cfg]` on ITEMS (fn / const / macro / mod lookups) is
+evaluated with kernel_translate.cfg_atom (x86_64 + SSE2, `cryptoxide_verif`, default cargo features, not test) and an item that is
+not compiled is never chosen.
 `unsafe { … }` is a plain block, `get_unchecked(i)` is indexing with a statically checked index (out of range = error,
 as is every slice/array index the source would panic on).  Checked arithmetic (`+ - *`) on run-time words is refused
 (the kernels use `wrapping_*`); on compile-time integers it is exact and range-checked against the declared type.
 Name resolution is conservative: a `const` or `fn` that has two different definitions in the file it is found in is
 an error (qualify it), `module::f(…)` is searched only in the source file that IS that module, `&mut` may only alias
-arrays (struct fields / locals), a run-time `if` is only allowed on a condition the kernel spec declares (`conds`) and
-both branches are executed and merged value by value (`if c then a else b`).
+arrays (struct fields / locals; assignment to the whole array writes THROUGH the alias; re-binding an alias by assignment is
+refused), a run-time `if` is only allowed on a condition the kernel spec declares (`conds`) and both branches are executed and
+merged value by value (`if c then a else b`); a `return` inside a run-time `if` is refused.
+Macros: expansion is textual at the call site, which is faithful only without capture — refused are a `macro_rules!` defined twice
+(in a body, or a body-local one shadowing a file-level one), an invocation before the local definition, a `let`/`for` binding after a
+local macro definition of a name its body mentions, and a file-level macro whose body mentions a name that is a local / parameter of
+the invoking function.  A load primitive applied to a buffer a store primitive has already written is refused (stale words).
+Compile-time integer arithmetic follows rustc: `<<` wraps to the width (sign included), `/ %` truncate toward zero.
 Primitives outside the crate's kernels are named by the kernel spec: loads/stores (`read_u32v_be`, …: `load_prim`,
 `store_prim` — the destination words become parameters of the generated definition) and the std word methods
 (`rotate_left/right` → `render`, `wrapping_add` → `+`, `^ & | ! << >>` → `^^^ &&& ||| ~~~ <<< >>>`).
@@ -129,7 +139,7 @@ class Sources:
         self.files = list(files)
         self.text = {}
         for f in self.files:
-            path = os.path.join(kt.REPO, f)
+            path = os.path.join(kt.repo(), f)
             try:
                 self.text[f] = strip_comments(open(path).read())
             except OSError as e:
@@ -157,18 +167,35 @@ class Sources:
             j += 1
         raise TranslateError("unbalanced delimiters in source (eof)")
 
+    @staticmethod
+    def live(text, matches):
+        """the regex matches whose item is compiled under the translators' configuration (kernel_translate.cfg_atom)"""
+        groups = kt.scan_braces(text)
+        return [m for m in matches if kt.compiled_at(text, m.start(), groups) is not False]
+
     def mod_span(self, text, mod):
-        m = re.search(r"\bmod\s+" + re.escape(mod) + r"\s*\{", text)
-        if not m:
+        ms = self.live(text, list(re.finditer(r"\bmod\s+" + re.escape(mod) + r"\s*\{", text)))
+        if not ms:
             return None
+        if len(ms) > 1:
+            raise TranslateError(f"module {mod} is defined {len(ms)} times")
+        m = ms[0]
         return m.end() - 1, self.balanced(text, m.end() - 1)
 
-    def find_macro(self, name, prefer=None):
-        """(file, tokens of the delimited rules group) of `macro_rules! name`"""
+    def find_macro(self, name, prefer=None, file_level=True):
+        """(file, tokens of the delimited rules group) of the FILE-LEVEL `macro_rules! name` (a macro defined inside another
+        function's body is not visible; macros local to the translated body are handled by Expander.expand)"""
         for f in ([prefer] if prefer else []) + [x for x in self.files if x != prefer]:
             text = self.text[f]
-            m = re.search(r"\bmacro_rules\s*!\s*" + re.escape(name) + r"\s*([\(\[\{])", text)
-            if m:
+            ms = self.live(text, list(re.finditer(r"\bmacro_rules\s*!\s*" + re.escape(name) + r"\s*([\(\[\{])", text)))
+            if file_level:
+                groups = kt.scan_braces(text)
+                ms = [m for m in ms if kt.depth_at(groups, m.start()) == 0]
+            if len(ms) > 1:
+                # textual scoping: an invocation sees the latest definition BEFORE it; which one that is is not modelled
+                raise TranslateError(f"macro {name} is defined {len(ms)} times in {f}")
+            if ms:
+                m = ms[0]
                 end = self.balanced(text, m.end() - 1)
                 return f, lex(text[m.end() - 1:end])
         return None
@@ -190,7 +217,8 @@ class Sources:
             if not ok:
                 continue
             found = []
-            for m in re.finditer(r"\b(?:const|static)\s+" + re.escape(name) + r"\s*:", text[lo:hi]):
+            region = text[lo:hi]
+            for m in self.live(region, list(re.finditer(r"\b(?:const|static)\s+" + re.escape(name) + r"\s*:", region))):
                 j = lo + m.end()
                 depth, k = 0, j
                 eq = None
@@ -218,7 +246,7 @@ class Sources:
     def fn_bodies(self, f, name):
         """all `fn name … { body }` of file f as (header, body)"""
         text, out = self.text[f], []
-        for m in re.finditer(r"\bfn\s+" + re.escape(name) + r"\b", text):
+        for m in self.live(text, list(re.finditer(r"\bfn\s+" + re.escape(name) + r"\b", text))):
             depth, j = 0, m.end()
             while j < len(text):
                 c = text[j]
@@ -240,7 +268,8 @@ class Sources:
         return [f for f in self.files if f.endswith("/" + qual + ".rs") or f.endswith("/" + qual + "/mod.rs")]
 
     def find_fn(self, name, scope=None, prefer=None, qual=None):
-        """(file, header, body).  With `scope` (regex, e.g. an impl header): the first fn after it (kernel_translate.find_fn).
+        """(file, header, body).  With `scope` (regex, e.g. an impl header): the unique compiled fn INSIDE the braces of the item the
+        regex matches (kernel_translate.find_fn).
         Without: the fn must be unique in the file it is found in (else ambiguous -> error).  `qual`: module qualifier of
         the call path (`reference::f`): only files that are that module are searched."""
         files = ([prefer] if prefer else []) + [x for x in self.files if x != prefer]
@@ -253,7 +282,9 @@ class Sources:
                 try:
                     hdr, body = find_fn(self.text[f], name, scope)
                     return f, hdr, body
-                except TranslateError:
+                except TranslateError as err:
+                    if "ambiguous" in str(err) or "not decided" in str(err):
+                        raise
                     continue
             bodies = self.fn_bodies(f, name)
             if not bodies:
@@ -417,6 +448,28 @@ class Macro:
                 i += 1
         return names
 
+    KEYWORDS = {"let", "mut", "ref", "for", "in", "if", "else", "while", "loop", "match", "return", "break", "continue", "as", "unsafe",
+                "fn", "const", "static", "use", "self", "Self", "super", "crate", "true", "false", "move", "pub", "impl", "struct",
+                "u8", "u16", "u32", "u64", "u128", "usize", "i8", "i16", "i32", "i64", "i128", "isize", "bool", "_"}
+
+    def free_idents(self):
+        """identifiers written in the rule bodies that denote VARIABLES of the definition site (not metavariables, not bound by a
+        `let` of the body, not keywords / types, not function, macro, method, field or path-segment names)"""
+        free = set()
+        for pat, body in self.rules:
+            bound = self.body_let_names(body)
+            for j, t in enumerate(body):
+                if t[0] != "id" or t[1] in self.KEYWORDS or t[1] in bound:
+                    continue
+                prev = body[j - 1] if j > 0 else ("op", ";", None)
+                nxt = body[j + 1] if j + 1 < len(body) else ("op", ";", None)
+                if isop(prev, "$", ".", "::") or isop(nxt, "(", "!", "::") or (nxt[0] == "op" and nxt[1] == "{" and t[1][:1].isupper()):
+                    continue
+                if t[1][:1].isupper() and t[1].upper() == t[1]:
+                    continue                   # SCREAMING_CASE: a const / static item (items are not subject to hygiene)
+                free.add(t[1])
+        return free
+
     def transcribe(self, body, b, mark, local):
         out, i = [], 0
         while i < len(body):
@@ -472,10 +525,11 @@ class Expander:
     """token-level macro expansion of one function body (or macro result)"""
     BUILTIN = {"panic", "assert", "assert_eq", "assert_ne", "debug_assert", "debug_assert_eq", "unreachable", "unimplemented"}
 
-    def __init__(self, sources, file):
+    def __init__(self, sources, file, params=()):
         self.src, self.file = sources, file
         self.counter = 0
         self.file_macros = {}
+        self.params = set(params)         # parameter names of the function whose body is expanded (locals, like its `let`s)
 
     def lookup(self, name, local):
         if name in local:
@@ -488,15 +542,24 @@ class Expander:
     def expand(self, toks, local=None, depth=0):
         if depth > 64:
             raise TranslateError("macro recursion too deep")
-        local = dict(local or {})
+        inherited = dict(local or {})
+        local = dict(inherited)
         # 1. local macro_rules! definitions (lexically scoped to this token sequence; removed from it)
-        out, i = [], 0
+        out, i, defined_here = [], 0, {}
         while i < len(toks):
             t = toks[i]
             if t[0] == "id" and t[1] == "macro_rules" and i + 3 < len(toks) and isop(toks[i + 1], "!"):
                 name = toks[i + 2][1]
                 j = match_close(toks, i + 3)
+                # `macro_rules!` scoping is TEXTUAL (an invocation sees the latest definition before it); here all definitions of a
+                # sequence are collected first.  That is the same thing only if a name has one definition and no use before it.
+                if name in defined_here or name in inherited or self.src.find_macro(name, self.file) is not None:    # (file level)
+                    raise TranslateError(f"macro {name}! is re-defined inside a body (textual macro scoping is not modelled)")
+                if any(x[0] == "id" and x[1] == name and k + 1 < len(out) and isop(out[k + 1], "!") for k, x in enumerate(out[:-1])) \
+                        or (out and out[-1][:2] == ("id", name)):
+                    raise TranslateError(f"macro {name}! is invoked before its definition")
                 local[name] = Macro(name, toks[i + 3:j + 1])
+                defined_here[name] = len(out)
                 i = j + 1
                 if i < len(toks) and isop(toks[i], ";"):
                     i += 1
@@ -504,6 +567,16 @@ class Expander:
             out.append(t)
             i += 1
         toks = out
+        # hygiene: an identifier in a macro body denotes the variable visible where the macro is DEFINED.  Expansion is textual at
+        # the call site, so a `let`/`for` binding of that name AFTER the definition would capture it: refused.
+        for name, at in defined_here.items():
+            later = Macro.body_let_names(local[name], toks[at:])
+            clash = sorted(local[name].free_idents() & later)
+            if clash:
+                raise TranslateError(f"`let {clash[0]}` after the definition of macro {name}! would capture the `{clash[0]}` its body mentions "
+                                     "(macro hygiene; textual expansion is not faithful here)")
+        if depth == 0:
+            self.body_lets = Macro.body_let_names(None, toks) | self.params
         # 2. invocations
         out, i = [], 0
         while i < len(toks):
@@ -513,6 +586,12 @@ class Expander:
                 mac = self.lookup(t[1], local)
                 if mac is None:
                     raise TranslateError(f"macro {t[1]}! not found")
+                if t[1] not in local:
+                    # file-level macro: its body cannot see ANY local of the function it is invoked in
+                    clash = sorted(mac.free_idents() & getattr(self, "body_lets", set()))
+                    if clash:
+                        raise TranslateError(f"file-level macro {t[1]}! mentions `{clash[0]}`, which is also a local variable of the invoking "
+                                             "function (macro hygiene; textual expansion would capture it)")
                 j = match_close(toks, i + 2)
                 args = toks[i + 3:j]
                 for pat, body in mac.rules:
@@ -561,6 +640,8 @@ class P2(P):
                 while d:
                     t = self.eat()[1]; d += (t == "[") - (t == "]")
                 attr = self.t[start:self.i - 1]
+                if attr and attr[0][1] == "cfg_attr":
+                    raise TranslateError("`#[cfg_attr(..)]` inside a function body is outside the translated subset")
                 if attr and attr[0][1] == "cfg":
                     st = self.item_or_stmt()
                     stmts.append(("cfg", attr[1:], st))
@@ -575,14 +656,25 @@ class P2(P):
             self.eat()
             if self.at("("):
                 self.i = match_close(self.t, self.i) + 1
-        if self.atid("fn") or (self.atid("const") and self.peek(1)[1] == "fn"):      # nested fn item: translated when called
+        if self.atid("fn") or ((self.atid("const") or self.atid("unsafe")) and self.peek(1)[1] == "fn"):
+            # nested fn item: ("fnitem", name) when self.fnitems (the executor checks that it shadows no primitive; the item itself is
+            # translated when it is called, found by Sources.find_fn); legacy consumers: skipped, name recorded in self.skipped_fns
+            while not self.atid("fn"):
+                self.eat()
+            self.eat(); name = self.eat()[1]
             while not self.at("{"):
                 self.eat()
             self.i = match_close(self.t, self.i) + 1
+            if self.fnitems:
+                return ("fnitem", name)
+            self.skipped_fns.append(name)
             return None
         if self.atid("use"):
+            start = self.i
             while not self.at(";"):
                 self.eat()
+            if any(t[0] == "id" and t[1] == "as" for t in self.t[start:self.i]):
+                raise TranslateError("renaming import (`use … as …`) inside a function body: names are resolved by spelling")
             self.eat(";")
             return None
         return self.stmt()
@@ -650,7 +742,7 @@ class P2(P):
             if self.at("="):
                 self.eat(); init = self.expr()
             self.eat(";")
-            return ("let", pat, ty, init)
+            return ("let", pat, ty, init)          # `&mut` initialisers stay visible as ("ref", True, place) nodes (see Ex.exec_stmts)
         if self.atid("const") or self.atid("static"):
             self.eat(); name = self.eat()[1]; self.eat(":"); ty = self.ty(); self.eat("="); init = self.expr(); self.eat(";")
             return ("let", ("var", name), ty, init)
@@ -741,6 +833,7 @@ class P2(P):
 
 def parse_block(toks):
     p = P2(toks)
+    p.fnitems = True
     b = p.block()
     if p.peek()[0] != "eof":
         raise TranslateError(f"trailing tokens after block: {p.peek()[1]!r}")
@@ -876,7 +969,7 @@ def vcopy(v):
 class WKernel:
     """spec of one word kernel
 
-    file, fn, scope     where the Rust function is (scope: regex that must precede the fn, e.g. r"impl\\s+EngineB")
+    file, fn, scope     where the Rust function is (scope: regex matching the header of the impl / mod the fn is INSIDE, e.g. r"impl\\s+EngineB")
     files               further source files searched for helper fns / consts / macros / operator impls
     lean_name, params, ret_type, doc
     args                rust parameter name -> value (use the helpers words()/word()/opaque())
@@ -922,6 +1015,8 @@ def load_prim(src_name, names, ty):
         srcv = ex.ev(args[1])
         if not (isinstance(srcv, Opaque) and srcv.name == src_name):
             raise TranslateError(f"load primitive: source is not `{src_name}`")
+        if src_name in ex.stored:
+            raise TranslateError(f"load from `{src_name}` after a store to it: the words of the buffer are no longer the parameters of the kernel")
         arr, lo, hi = ex.slice_place(args[0])
         if hi - lo != len(names):
             raise TranslateError(f"load primitive: destination has {hi - lo} words, expected {len(names)}")
@@ -941,6 +1036,7 @@ def store_prim(dst_name, slot):
         d = ex.ev(args[0])
         if not (isinstance(d, Opaque) and d.name == dst_name):
             raise TranslateError(f"store primitive: destination is not `{dst_name}`")
+        ex.stored.add(dst_name)
         arr, lo, hi = ex.slice_place(args[1])
         ex.outputs[slot] = [ex.atom(x, f"{slot}{i}") for i, x in enumerate(arr.items[lo:hi])]
         return UNIT
@@ -969,6 +1065,7 @@ class Ex:
         self.depth = 0
         self.steps = 0
         self.no_emit = 0
+        self.stored = set()        # opaque buffers written by a store primitive (a later load of them would read stale parameters)
 
     # ---- names / emission
     def fresh(self, base):
@@ -1202,6 +1299,10 @@ class Ex:
             sc, name = r
             old = sc[name]
             val = self.match_shape(old, val, name)
+            if isinstance(old, Arr) and isinstance(val, Arr):
+                # `a = [..]` / `*r = [..]` with r a `&mut` alias: the OBJECT is updated, so that every alias of it sees the write
+                old.items[:] = self.atom(val, name).items
+                return
             sc[name] = self.atom(val, name)
             return
         if k == "index":
@@ -1435,15 +1536,18 @@ class Ex:
                 ty = a.ty
                 if ty and b.v >= kt.INT_TYPES.get(ty, 64):
                     raise TranslateError("shift amount ≥ width (the source would panic)")
+                if b.v < 0:
+                    raise TranslateError("negative shift amount")
                 v = a.v << b.v if op == "<<" else a.v >> b.v
                 if op == "<<" and ty:
                     lo, hi = INT_RANGE[ty]
-                    v %= hi
+                    v = (v - lo) % (hi - lo) + lo          # bits shifted out are lost, bit width-1 is the sign: two's complement
                 return Int(v, ty)
             if op == "/" or op == "%":
                 if b.v == 0:
                     raise TranslateError("division by zero")
-                return Int(a.v // b.v if op == "/" else a.v % b.v, ty)
+                q = abs(a.v) // abs(b.v) * (1 if (a.v < 0) == (b.v < 0) else -1)      # Rust truncates toward zero
+                return Int(q if op == "/" else a.v - q * b.v, ty)
             fn = {"+": lambda x, y: x + y, "-": lambda x, y: x - y, "*": lambda x, y: x * y,
                   "&": lambda x, y: x & y, "|": lambda x, y: x | y, "^": lambda x, y: x ^ y}.get(op)
             if fn is None:
@@ -1491,11 +1595,16 @@ class Ex:
             base_frames = self.frames
             fa = copy.deepcopy(base_frames)
             fb = copy.deepcopy(base_frames)
-            self.frames = fa
-            va = self.exec_block(e[2])
-            self.frames = fb
-            vb = self.exec_block(e[3]) if e[3] is not None else UNIT
-            self.frames = base_frames
+            try:
+                self.frames = fa
+                va = self.exec_block(e[2])
+                self.frames = fb
+                vb = self.exec_block(e[3]) if e[3] is not None else UNIT
+            except ReturnEx:
+                # a `return` under a run-time condition: only one of the two paths leaves the function — not a straight-line kernel
+                raise TranslateError("`return` inside a run-time `if` is not translated (it would become unconditional)")
+            finally:
+                self.frames = base_frames
             self.merged = set()
             for fr, xa, xb in zip(base_frames, fa, fb):
                 for sc, sa, sb in zip(fr.scopes, xa.scopes, xb.scopes):
@@ -1639,7 +1748,7 @@ class Ex:
         params = self.parse_sig(hdr)
         if len(params) != len(args):
             raise TranslateError(f"{label}: {len(args)} arguments for {len(params)} parameters")
-        toks = Expander(self.src, f).expand(lex(body))
+        toks = Expander(self.src, f, [p_[1] for p_, _ in params if p_[0] == "var"]).expand(lex(body))
         stmts = parse_block(toks)
         fr = Frame(f)
         for (pat, ty), a in zip(params, args):
@@ -1793,6 +1902,11 @@ class Ex:
                 self.bind_pattern(pat, v)
             elif kind == "assign":
                 lhs, op, rhs = s[1], s[2], s[3]
+                r0 = rhs
+                while r0[0] == "paren":
+                    r0 = r0[1]
+                if r0[0] == "ref" and r0[1]:
+                    raise TranslateError("`p = &mut <place>` re-binds a mutable alias by assignment (not translated)")
                 if op == "=":
                     v = self.ev(rhs)
                 else:
@@ -1806,6 +1920,13 @@ class Ex:
                     raise TranslateError("value expression in the middle of a block")
             elif kind == "return":
                 raise ReturnEx(self.ev(s[1]) if s[1] is not None else UNIT)
+            elif kind == "fnitem":
+                # the item is translated when it is called (Sources.find_fn demands ONE definition of that name in the file); a nested
+                # fn named like a primitive of the spec would shadow it for this body: refused
+                if s[1] in self.k.prims:
+                    raise TranslateError(f"nested `fn {s[1]}` shadows the primitive `{s[1]}` the kernel spec declares")
+                if self.src.has_tuple_struct(s[1]) is not None:
+                    raise TranslateError(f"nested `fn {s[1]}` shadows a tuple-struct constructor")
             elif kind == "for":
                 pat, rng, body = s[1], s[2], s[3]
                 if rng[0] == "paren":
@@ -1859,6 +1980,11 @@ class Ex:
 
 def translate(k: WKernel):
     src = Sources(k.files)
+    for f in k.files:
+        # names are resolved by spelling: an import that RENAMES a name some code of the file uses changes what that spelling means
+        text = src.text[f]
+        body_text = re.sub(r"\buse\s+[^;]+;", "", text)
+        kt.refuse_renaming_uses(text, set(re.findall(r"[A-Za-z_]\w*", body_text)), f)
     r = src.find_fn(k.fn, k.scope, k.file)
     if r is None or r[0] != k.file:
         raise TranslateError(f"fn {k.fn} not found in {k.file}")
@@ -1875,7 +2001,7 @@ def translate(k: WKernel):
     fr = Frame(f)
     for n in names:
         fr.scopes[0][n] = vcopy(k.args[n])
-    toks = Expander(src, f).expand(lex(body))
+    toks = Expander(src, f, names).expand(lex(body))
     stmts = parse_block(toks)
     if k.until is not None:
         cut = [i for i, st in enumerate(stmts) if k.until(st)]
